@@ -1225,36 +1225,18 @@ impl Translator {
                 //     .collect::<Vec<_>>();
                 let mut arm_labels = vec![];
                 for (i, arm) in arms.iter().enumerate() {
-                    // An arm with or-patterns is tested once for every combination of their
-                    // alternatives. The or-patterns that have switched to their right alternative
-                    // are in this set; it steps through the combinations like a binary counter.
-                    let mut or_pat_decisions = HashSet::default();
-                    loop {
-                        // the or-patterns reached under the current decisions, left to right
-                        let mut or_pats = vec![];
-                        self.traverse_arm_pat(&arm.pat, mono, &or_pat_decisions, &mut or_pats);
-
+                    // an arm with or-patterns is tested once for every combination of their
+                    // alternatives
+                    for or_pat_decisions in self.or_pat_combinations(&arm.pat, mono) {
                         let arm_label = make_label(&format!("arm{i}"));
-                        // the bindings must come from the alternatives that matched
-                        arm_labels.push((arm_label.clone(), arm.clone(), or_pat_decisions.clone()));
 
                         // duplicate the scrutinee before doing a comparison
                         self.emit(st, Instr::Duplicate);
                         self.translate_pat_comparison(&ty, &arm.pat, st, mono, &or_pat_decisions);
-                        self.emit(st, Instr::JumpIf(arm_label));
+                        self.emit(st, Instr::JumpIf(arm_label.clone()));
 
-                        // the last or-pattern still on its left alternative moves on to its
-                        // right alternative and the ones after it start over
-                        let Some(last_left) = or_pats
-                            .iter()
-                            .rposition(|or_pat| !or_pat_decisions.contains(or_pat))
-                        else {
-                            break;
-                        };
-                        or_pat_decisions.insert(or_pats[last_left]);
-                        for or_pat in &or_pats[last_left + 1..] {
-                            or_pat_decisions.remove(or_pat);
-                        }
+                        // the bindings must come from the alternatives that matched
+                        arm_labels.push((arm_label, arm.clone(), or_pat_decisions));
                     }
                 }
                 // let mut label_index = 0;
@@ -2535,8 +2517,7 @@ impl Translator {
         match &*stmt.kind {
             StmtKind::Let(_, pat, expr) => {
                 self.translate_expr(expr, offset_table, mono, st);
-                let or_pat_decisions = HashSet::default();
-                self.handle_pat_binding(&pat.0, offset_table, st, mono, &or_pat_decisions);
+                self.bind_irrefutable_pat(&pat.0, offset_table, st, mono);
             }
             StmtKind::Assign(expr1, assign_op, rvalue) => {
                 let rvalue_ty = self.get_ty(mono, rvalue.node()).unwrap();
@@ -2911,8 +2892,7 @@ impl Translator {
                     // a void item is not bound to anything; discard the variant's dummy payload
                     self.emit(st, Instr::Pop);
                 } else {
-                    let or_pat_decisions = HashSet::default();
-                    self.handle_pat_binding(pat, offset_table, st, mono, &or_pat_decisions);
+                    self.bind_irrefutable_pat(pat, offset_table, st, mono);
                 }
                 st.loop_stack.push(EnclosingLoop {
                     start_label: start_label.clone(),
@@ -3095,6 +3075,67 @@ impl Translator {
                 label
             }
         }
+    }
+
+    // Every combination of alternatives of the or-patterns in `pat`. A combination is the set of
+    // or-patterns that have switched to their right alternative; the combinations are stepped
+    // through like a binary counter, all-left first.
+    fn or_pat_combinations(&self, pat: &Rc<Pat>, mono: &MonomorphEnv) -> Vec<HashSet<NodeId>> {
+        let mut combinations = vec![];
+        let mut or_pat_decisions = HashSet::default();
+        loop {
+            combinations.push(or_pat_decisions.clone());
+            // the or-patterns reached under the current decisions, left to right
+            let mut or_pats = vec![];
+            self.traverse_arm_pat(pat, mono, &or_pat_decisions, &mut or_pats);
+            // the last or-pattern still on its left alternative moves on to its
+            // right alternative and the ones after it start over
+            let Some(last_left) = or_pats
+                .iter()
+                .rposition(|or_pat| !or_pat_decisions.contains(or_pat))
+            else {
+                return combinations;
+            };
+            or_pat_decisions.insert(or_pats[last_left]);
+            for or_pat in &or_pats[last_left + 1..] {
+                or_pat_decisions.remove(or_pat);
+            }
+        }
+    }
+
+    // Bind the variables of the pattern of a `let` or `for` to the value on top of the stack.
+    // The pattern as a whole always matches, but when it has or-patterns it has to be found out
+    // which alternatives match this value: the variables are bound through those.
+    fn bind_irrefutable_pat(
+        &self,
+        pat: &Rc<Pat>,
+        locals: &OffsetTable,
+        st: &mut TranslatorState,
+        mono: &MonomorphEnv,
+    ) {
+        let ty = self.get_ty(mono, pat.node()).unwrap();
+        let mut combinations = self.or_pat_combinations(pat, mono);
+        // nothing to find out (a void value is not on the stack at all)
+        if combinations.len() == 1 || ty == SolvedType::Void {
+            self.handle_pat_binding(pat, locals, st, mono, &combinations[0]);
+            return;
+        }
+        let end_label = make_label("endbind");
+        // one of the combinations matches: the last one needs no test
+        let last = combinations.pop().unwrap();
+        let labels: Vec<_> = combinations.iter().map(|_| make_label("bind")).collect();
+        for (or_pat_decisions, label) in combinations.iter().zip(&labels) {
+            self.emit(st, Instr::Duplicate);
+            self.translate_pat_comparison(&ty, pat, st, mono, or_pat_decisions);
+            self.emit(st, Instr::JumpIf(label.clone()));
+        }
+        self.handle_pat_binding(pat, locals, st, mono, &last);
+        for (or_pat_decisions, label) in combinations.iter().zip(labels) {
+            self.emit(st, Instr::Jump(end_label.clone()));
+            self.emit(st, Line::Label(label));
+            self.handle_pat_binding(pat, locals, st, mono, or_pat_decisions);
+        }
+        self.emit(st, Line::Label(end_label));
     }
 
     fn traverse_arm_pat(
